@@ -6,6 +6,20 @@ V = '/verif'
 props = [json.loads(l) for l in open(f'{V}/properties.jsonl')]
 claimed = json.load(open(f'{V}/tools/claims.json'))
 na_reason = json.load(open(f'{V}/tools/not_applicable.json'))
+import glob
+def technique(pid):
+    t = ("contract-based deductive verification: VC generation over go/ssa of the real functions against //@ contracts kept in /repo "
+         "(build tag verif); every obligation discharged by z3 5.1.0 / z3 4.8.12, cvc5 1.0 in reserve (thorough: all three from the start, 60 s)")
+    if pid in ('C03', 'C04'):
+        t += ("; the semantic actions of the goyacc-generated parser are extracted mechanically from grammar.go on every run "
+              "(in-memory overlay, contracts derived from grammar.y) and verified like any other function")
+    b = sorted(glob.glob(f'{V}/bounded/{pid}_*.go.tmpl'))
+    if b:
+        names = ', '.join(os.path.basename(x)[len(pid)+1:-8] for x in b)
+        t += (f"; plus a bounded stand-in ({names}) for the part that is out of the verifier's reach, run against the real code on every check, "
+              "labelled bounded in the evidence and never counted as a discharged obligation")
+    return t
+
 checks = []
 for p in props:
     pid = p['id']
@@ -26,7 +40,7 @@ for p in props:
         "evidence_file": f"/verif/evidence/{pid}.json",
         "replay_cmd_template": "./bin/govc replay {path}",
         "engine": "govc",
-        "technique": "contract-based deductive verification: VC generation over go/ssa of the real functions against //@ contracts kept in /repo (build tag verif); every obligation discharged by z3 4.8.12 / z3 5.1.0 (thorough: + cvc5)",
+        "technique": technique(pid),
         "level_claimed": {"category": level, "text": text, "design_ref": "DESIGN.md §5 " + pid},
         "level_note": c.get('note', '') + " Trusted base: govc itself and the SMT solvers; assumed contracts on the standard library (fmt.Errorf/errors.Is wrap chains, math, strconv, encoding/json.Number, time, regexp, context); wfAST getter postconditions of package ast marked trusted; calls through function values are pure functions of their arguments; integers are mathematical with explicit wrap (bit-vectors in 'mode bv' functions); float64->int64 as on amd64."})
 na = [{"property_id": p['id'], "reason": na_reason[p['id']]} for p in props if p['id'] not in claimed]
